@@ -1033,6 +1033,20 @@ func waitGroupOrders(s *Stage, closer, sender *proc, k string) string {
 					}
 				}
 				if !dom {
+					// the Wait and the close live in different functions (a `closeAfter(wg, closer)` helper running
+					// the closing closure): decided on the paths instead of by block dominance
+					var w *ir.Term
+					if precededOnPaths(closer.an, e.step.Instr, func(x *ir.Step) bool {
+						if isWgWait(x) {
+							w = x.A[0]
+							return true
+						}
+						return false
+					}) {
+						dom, wg = true, w
+					}
+				}
+				if !dom {
 					return "the close is not preceded by wg.Wait"
 				}
 			}
